@@ -86,6 +86,42 @@ Definition process_one_trace (exts : list bytes) (overwrite : bool) (fname : byt
       to_file_trace (formatter_for_filename exts out) out out_exists None chunks fail_at
     else [].
 
+(* process_game_files over the whole argument list: the carts are processed in order; an exception in
+   one write is not caught, it ends the command (later carts are not reached).  [fail_at] counts the
+   temporary-stream writes of the whole command. *)
+Record cart_in : Type := mkCartIn {
+  ci_fname : bytes; ci_incs : list path; ci_loads : bool; ci_out_exists : bool; ci_chunks : list D }.
+
+Definition writes_of (exts : list bytes) (overwrite : bool) (c : cart_in) : nat :=
+  if negb (ends_with (ci_fname c) ".p8.png"%bs) && negb (ends_with (ci_fname c) ".p8"%bs) then O
+  else if ci_loads c then
+         match formatter_for_filename exts (out_fname overwrite (ci_fname c)) with
+         | Some _ => length (ci_chunks c)
+         | None => O
+         end
+       else O.
+
+(* UnrecognizedFileType for the output name (cannot happen with the real FORMATTERS table): the command ends *)
+Definition aborts (exts : list bytes) (overwrite : bool) (c : cart_in) : bool :=
+  negb (negb (ends_with (ci_fname c) ".p8.png"%bs) && negb (ends_with (ci_fname c) ".p8"%bs)) && ci_loads c &&
+  match formatter_for_filename exts (out_fname overwrite (ci_fname c)) with Some _ => false | None => true end.
+
+Fixpoint process_many_trace (exts : list bytes) (overwrite : bool) (files : list cart_in)
+         (fail_at : option nat) : list (op D) :=
+  match files with
+  | [] => []
+  | c :: r =>
+    let one f := process_one_trace exts overwrite (ci_fname c) (ci_incs c) (ci_loads c) (ci_out_exists c) (ci_chunks c) f in
+    if aborts exts overwrite c then one None
+    else
+      match fail_at with
+      | None => one None ++ process_many_trace exts overwrite r None
+      | Some k =>
+        if Nat.ltb k (writes_of exts overwrite c) then one (Some k)
+        else one None ++ process_many_trace exts overwrite r (Some (k - writes_of exts overwrite c)%nat)
+      end
+  end.
+
 (* ---------- build.py: do_build ---------- *)
 (* OUT is loaded when it exists, every named source is read, then (C13: at most once, last) to_file *)
 Definition build_trace (exts : list bytes) (out : bytes) (out_exists : bool) (sources : list path)
